@@ -776,84 +776,13 @@ func c06R10(ic *IC, r *Report) {
 		})
 	}
 	collect(deferred.Body)
-	nIdx := 0
-	for _, u := range units {
-		ast.Inspect(u.body, func(n ast.Node) bool {
-			ix, ok := n.(*ast.IndexExpr)
-			if !ok {
-				return true
-			}
-			se, ok := unparen(ix.X).(*ast.SelectorExpr)
-			if !ok || selField(info, se) != childFld {
-				return true
-			}
-			tv, ok := info.Types[ix.Index]
-			if !ok || tv.Value == nil {
-				return true
-			}
-			nIdx++
-			owner := types.ExprString(se.X)
-			covered := false
-			mentions := func(e ast.Node) bool {
-				found := false
-				ast.Inspect(e, func(m ast.Node) bool {
-					switch x := m.(type) {
-					case *ast.SelectorExpr:
-						if x.Sel.Name == "kind" && types.ExprString(x.X) == owner {
-							found = true
-						}
-					case *ast.CallExpr:
-						if isBuiltinCall(info, x, "len") && len(x.Args) == 1 && types.ExprString(x.Args[0]) == owner+".child" {
-							found = true
-						}
-					}
-					return !found
-				})
-				return found
-			}
-			path := enclosingPath(u.body, ix)
-			for i, p := range path {
-				switch x := p.(type) {
-				case *ast.IfStmt:
-					if i+1 < len(path) && path[i+1] == ast.Node(x.Body) && mentions(x.Cond) {
-						covered = true
-					}
-					// if len(X.child) == 0 { return } before: handled below
-				case *ast.SwitchStmt:
-					if x.Tag != nil && mentions(x.Tag) {
-						covered = true
-					}
-				case *ast.CaseClause:
-					for _, e := range x.List {
-						if mentions(e) {
-							covered = true
-						}
-					}
-				case *ast.BinaryExpr:
-					// len(X.child) > 1 && X.child[1]...
-					if x.Op == token.LAND && i+1 < len(path) && path[i+1] == ast.Node(x.Y) && mentions(x.X) {
-						covered = true
-					}
-				case *ast.BlockStmt:
-					// an earlier statement of the block leaving when the test fails
-					for _, st := range x.List {
-						if i+1 < len(path) && st == path[i+1] {
-							break
-						}
-						if ifs, ok := st.(*ast.IfStmt); ok && mentions(ifs.Cond) && len(ifs.Body.List) > 0 {
-							switch ifs.Body.List[len(ifs.Body.List)-1].(type) {
-							case *ast.ReturnStmt, *ast.BranchStmt:
-								covered = true
-							}
-						}
-					}
-				}
-			}
-			r.Check(covered, "R06.10", fmt.Sprintf("%s/%s.child[%s]/guarded", u.name, owner, tv.Value.ExactString()), ic.pos(ix.Pos()), "the node's kind or number of children is tested on the way",
-				u.name+" indexes "+types.ExprString(ix)+" while the panic is being propagated, with no test of "+owner+".kind or len("+owner+".child) on the path: for a node with fewer children (a receiver declared without a name has one) the index faults inside the deferred function of runCfg, and that run-time error replaces the script's panic value for recover and for the error returned by Eval")
-			return true
-		})
+	cu := make([]childIndexUnit, len(units))
+	for i, u := range units {
+		cu[i] = childIndexUnit{u.name, u.body}
 	}
+	nIdx := checkChildIndexes(ic, r, "R06.10", cu, func(u childIndexUnit, ix *ast.IndexExpr, owner string) string {
+		return u.name + " indexes " + types.ExprString(ix) + " while the panic is being propagated, with no test of " + owner + ".kind or len(" + owner + ".child) on the path: for a node with fewer children (a receiver declared without a name has one) the index faults inside the deferred function of runCfg, and that run-time error replaces the script's panic value for recover and for the error returned by Eval"
+	})
 	r.Info["propagation_path_functions"] = len(units)
 	if nIdx == 0 {
 		r.Errorf("R06.10: no constant index into node.child found on the propagation path (panicFunc is expected to read the function name)")
@@ -1172,4 +1101,97 @@ func c06R14(ic *IC, r *Report) {
 	if n < 6 {
 		r.Errorf("R06.14: only %d of the deferrable builtins (close, copy, delete, panic, print, println) found in the universe table", n)
 	}
+}
+
+// childIndexUnit is one function body whose constant indexes into node.child are checked.
+type childIndexUnit struct {
+	name string
+	body *ast.BlockStmt
+}
+
+// checkChildIndexes: every constant index X.child[k] in the units lies under a test of X.kind or
+// len(X.child) (enclosing if/switch/case, left operand of &&, or an earlier guard leaving the
+// block). Shared by R06.10 (panic propagation path) and R19.10 (debugger hooks).
+func checkChildIndexes(ic *IC, r *Report, rule string, units []childIndexUnit, why func(u childIndexUnit, ix *ast.IndexExpr, owner string) string) int {
+	info := ic.Info
+	childFld := ic.field("node", "child")
+	nIdx := 0
+	for _, u := range units {
+		ast.Inspect(u.body, func(n ast.Node) bool {
+			ix, ok := n.(*ast.IndexExpr)
+			if !ok {
+				return true
+			}
+			se, ok := unparen(ix.X).(*ast.SelectorExpr)
+			if !ok || selField(info, se) != childFld {
+				return true
+			}
+			tv, ok := info.Types[ix.Index]
+			if !ok || tv.Value == nil {
+				return true
+			}
+			nIdx++
+			owner := types.ExprString(se.X)
+			covered := false
+			mentions := func(e ast.Node) bool {
+				found := false
+				ast.Inspect(e, func(m ast.Node) bool {
+					switch x := m.(type) {
+					case *ast.SelectorExpr:
+						if x.Sel.Name == "kind" && types.ExprString(x.X) == owner {
+							found = true
+						}
+					case *ast.CallExpr:
+						if isBuiltinCall(info, x, "len") && len(x.Args) == 1 && types.ExprString(x.Args[0]) == owner+".child" {
+							found = true
+						}
+					}
+					return !found
+				})
+				return found
+			}
+			path := enclosingPath(u.body, ix)
+			for i, p := range path {
+				switch x := p.(type) {
+				case *ast.IfStmt:
+					if i+1 < len(path) && path[i+1] == ast.Node(x.Body) && mentions(x.Cond) {
+						covered = true
+					}
+					// if len(X.child) == 0 { return } before: handled below
+				case *ast.SwitchStmt:
+					if x.Tag != nil && mentions(x.Tag) {
+						covered = true
+					}
+				case *ast.CaseClause:
+					for _, e := range x.List {
+						if mentions(e) {
+							covered = true
+						}
+					}
+				case *ast.BinaryExpr:
+					// len(X.child) > 1 && X.child[1]...
+					if x.Op == token.LAND && i+1 < len(path) && path[i+1] == ast.Node(x.Y) && mentions(x.X) {
+						covered = true
+					}
+				case *ast.BlockStmt:
+					// an earlier statement of the block leaving when the test fails
+					for _, st := range x.List {
+						if i+1 < len(path) && st == path[i+1] {
+							break
+						}
+						if ifs, ok := st.(*ast.IfStmt); ok && mentions(ifs.Cond) && len(ifs.Body.List) > 0 {
+							switch ifs.Body.List[len(ifs.Body.List)-1].(type) {
+							case *ast.ReturnStmt, *ast.BranchStmt:
+								covered = true
+							}
+						}
+					}
+				}
+			}
+			r.Check(covered, rule, fmt.Sprintf("%s/%s.child[%s]/guarded", u.name, owner, tv.Value.ExactString()), ic.pos(ix.Pos()), "the node's kind or number of children is tested on the way",
+				why(u, ix, owner))
+			return true
+		})
+	}
+	return nIdx
 }
